@@ -53,12 +53,12 @@ var instants = [][2]int64{
 }
 
 var instantsWide = [][2]int64{
-	{-9214560000, 0},      // 1678
-	{9214646400, 0},       // 2262
-	{-1, 999999999},       // just before the epoch
-	{-2208988800, 0},      // 1900
-	{-9223372036, 0},      // near the UnixNano lower limit
-	{9223372036, 0},       // near the UnixNano upper limit
+	{-9214560000, 0}, // 1678
+	{9214646400, 0},  // 2262
+	{-1, 999999999},  // just before the epoch
+	{-2208988800, 0}, // 1900
+	{-9223372036, 0}, // near the UnixNano lower limit
+	{9223372036, 0},  // near the UnixNano upper limit
 }
 
 func Time(cfg ValCfg) *rapid.Generator[interface{}] {
